@@ -65,6 +65,8 @@ DECIDING = {
     "glue_cases": 1, "cut_positions": 1, "early_data_cases": 1, "pings_compared": 1,
     "mix_stream_under_pmce": 50, "mix_prepared_applymask_off": 20, "mix_sendframe_explicit_mask": 50,
     "mix_begin_end_without_frame": 20, "aio_bursts_delivered": 200,
+    "asym_takeover_conns_2plus_msgs_each_way": 100, "asym_takeover_c1_s0": 30, "asym_takeover_c0_s1": 30,
+    "echo_payloads": 500,
 }
 
 BORDER_LENGTHS = [0, 1, 2, 3, 124, 125, 126, 127, 128, 129, 65534, 65535, 65536, 65537, 131071, 131072, 131073]
@@ -213,7 +215,7 @@ def _split(rng, n, k, allow_zero=False):
 
 def derive_cfg(rng, force):
     cfg = {
-        "pmce": rng.choice([None, None, None, "default", "default", "nct", "wbits"]),
+        "pmce": rng.choice([None, None, None, None, "default", "default", "nct", "wbits", "nct-c", "nct-s", "mix", "mix"]),
         "mask": rng.choice(["std"] * 6 + ["lenient", "srvmask", "cliunmask", "bothflip", "applyoff", "applyoff-srvmask"]),
         "utf8": rng.random() < 0.85,
         "autofrag": {"client": 0, "server": 0},
@@ -227,8 +229,35 @@ def derive_cfg(rng, force):
     for side in ("client", "server"):
         if rng.random() < 0.25:
             cfg["autofrag"][side] = rng.choice([1, 2, 3, 125, 126, 127, 1000, 65535, 65536])
+    # random draws for the 'mix' mode are always consumed (the rest of the derivation must not depend on the mode)
+    mix = {"s_nct": rng.random() < 0.5, "c_nct": rng.random() < 0.5,
+           "s_local": rng.random() < 0.3, "c_local": rng.random() < 0.3,
+           "s_wb": rng.choice([0, 0, 9, 10, 12, 15]), "c_wb": rng.choice([0, 0, 9, 11, 13, 15])}
     cfg.update(force.get("cfg", {}))
+    if "pmce_opts" not in cfg:
+        cfg["pmce_opts"] = pmce_opts(cfg["pmce"], cfg["wbits"], mix)
     return cfg
+
+
+def pmce_opts(mode, wbits, mix):
+    """permessage-deflate option matrix of one connection.
+    s_nct / c_nct  : server_/client_no_context_takeover ON THE WIRE (offer.request_no_context_takeover /
+                     offer-accept.request_no_context_takeover) - all four combinations occur;
+    s_local/c_local: the unilateral overrides offer-accept(no_context_takeover=True) / response-accept(
+                     no_context_takeover=True): the sender drops its context without announcing it (always decodable);
+    s_wb / c_wb    : server_/client_max_window_bits on the wire (0 = not negotiated = 15)."""
+    o = {"s_nct": False, "c_nct": False, "s_local": False, "c_local": False, "s_wb": 0, "c_wb": 0}
+    if mode == "nct":
+        o.update(s_nct=True, c_nct=True)
+    elif mode == "nct-c":
+        o.update(c_nct=True)
+    elif mode == "nct-s":
+        o.update(s_nct=True)
+    elif mode == "wbits":
+        o.update(s_wb=wbits[0], c_wb=wbits[1])
+    elif mode == "mix":
+        o.update(mix)
+    return o
 
 
 def plan_message(rng, tier, cfg, role, idx, force, big_ok=True):
@@ -241,6 +270,9 @@ def plan_message(rng, tier, cfg, role, idx, force, big_ok=True):
         binary = rng.random() < 0.5
     p = {"idx": idx, "length": n, "binary": bool(binary), "api": api,
          "fill": rng.choice(["random", "repeat", "mixed"])}
+    # the body repeats the body of the previous message of this direction (new unique tag): with context takeover the
+    # compressor back-references the earlier message, so a receiver that wrongly drops (or keeps) its context fails
+    p["echo"] = rng.random() < (0.7 if force.get("echo") else 0.25)
     pmce = cfg["pmce"] is not None
     if api == "msg-frag":
         p["fs"] = force.get("fs") or _frag_size(rng, n)
@@ -335,12 +367,14 @@ def build_plans(case, cfg, rng):
         return plans
     total = case.get("n_msgs") or rng.choice([1, 2, 3, 4, 6, 9, 14, 20, 30, 40])
     nc = rng.randint(0, total)
+    if case.get("balanced"):
+        nc = total // 2
     if kind == "glue":
         nc = max(1, min(nc, total - 1)) if total > 1 else rng.randint(0, 1)
     budget = {"quick": 350000, "thorough": 3000000}[tier]
     for d, role, cnt in (("c2s", "client", nc), ("s2c", "server", total - nc)):
         for i in range(cnt):
-            p = plan_message(rng, tier, cfg, role, i, {}, big_ok=budget > 140000)
+            p = plan_message(rng, tier, cfg, role, i, {"echo": True} if case.get("echo") else {}, big_ok=budget > 140000)
             budget -= p["length"]
             plans[d].append(p)
     return plans
@@ -367,6 +401,7 @@ class Side:
         self.in_frame = False    # inside a half-written streamed frame
         self.seg = None
         self.onopen_n = 0
+        self.prev_body = {}      # is_binary -> body of the last message sent (see plan 'echo')
 
     # -- options ---------------------------------------------------------------------------
     def mask_opt(self):
@@ -421,6 +456,12 @@ class Side:
         else:
             unit = None
             payload = cw.make_payload(run.seed, self.direction, p["idx"], n, p["binary"], p["fill"])
+            prev = self.prev_body.get(p["binary"])
+            if p.get("echo") and prev and n > cw.TAG_LEN + 8:
+                payload = cw.echo_payload(self.direction, p["idx"], n, p["binary"], prev)
+                run.R.count("echo_payloads")
+        if len(payload) >= cw.TAG_LEN + 8:
+            self.prev_body[p["binary"]] = payload[cw.TAG_LEN:][:20000]
         rec = {"idx": p["idx"], "tag": cw.tag_of(payload), "binary": p["binary"], "sha": cw.sha(payload), "len": n,
                "api": api, "payload": payload, "plan": p, "onopen": onopen,
                "xmask": bool(p.get("xmask")), "done": False, "ret_bad": None}
@@ -627,28 +668,24 @@ class CaseRun:
         from autobahn.websocket.compress import (PerMessageDeflateOffer, PerMessageDeflateOfferAccept,
                                                  PerMessageDeflateResponse, PerMessageDeflateResponseAccept)
         cfg = self.cfg
-        mode = cfg["pmce"]
-        wb_s, wb_c = cfg["wbits"]
+        po = cfg["pmce_opts"]
         mem = cfg["mem_level"]
-        if mode == "default":
-            offer = PerMessageDeflateOffer()
-        elif mode == "nct":
-            offer = PerMessageDeflateOffer(accept_no_context_takeover=True, request_no_context_takeover=True)
-        else:
-            offer = PerMessageDeflateOffer(accept_max_window_bits=True, request_max_window_bits=wb_s)
+        offer = PerMessageDeflateOffer(accept_no_context_takeover=True, accept_max_window_bits=True,
+                                       request_no_context_takeover=bool(po["s_nct"]),
+                                       request_max_window_bits=po["s_wb"] or 0)
 
         def accept(offers):
             for o in offers:
                 if isinstance(o, PerMessageDeflateOffer):
-                    if mode == "nct":
-                        return PerMessageDeflateOfferAccept(o, request_no_context_takeover=True, mem_level=mem)
-                    if mode == "wbits":
-                        return PerMessageDeflateOfferAccept(o, request_max_window_bits=wb_c, mem_level=mem)
-                    return PerMessageDeflateOfferAccept(o, mem_level=mem)
+                    return PerMessageDeflateOfferAccept(o, request_no_context_takeover=bool(po["c_nct"]),
+                                                        request_max_window_bits=po["c_wb"] or 0,
+                                                        no_context_takeover=True if po["s_local"] else None,
+                                                        mem_level=mem)
 
         def caccept(resp):
             if isinstance(resp, PerMessageDeflateResponse):
-                return PerMessageDeflateResponseAccept(resp, mem_level=mem)
+                return PerMessageDeflateResponseAccept(resp, no_context_takeover=True if po["c_local"] else None,
+                                                       mem_level=mem)
 
         so["perMessageCompressionAccept"] = accept
         co["perMessageCompressionOffers"] = [offer]
@@ -944,6 +981,15 @@ class CaseRun:
         s_head = cw.split_head(bytes(self.server.ep.all_out))
         pm = cw.negotiated_pmce(s_head[0]) if s_head else None
         self.pmce_params = pm
+        if pm:
+            R.seen("pmce_negotiated", "c_nct=%d s_nct=%d c_wb=%d s_wb=%d" % (pm["client_nct"], pm["server_nct"],
+                                                                            pm["client_wbits"], pm["server_wbits"]))
+            R.seen("pmce_takeover", "c_nct=%d s_nct=%d c_local=%d s_local=%d" % (
+                pm["client_nct"], pm["server_nct"], bool(cfg["pmce_opts"]["c_local"]), bool(cfg["pmce_opts"]["s_local"])))
+            n_cmp = [sum(1 for r in sd.sent if "pmce" in r["feat"].split("+") and r["api"] != "stream") for sd in self.sides]
+            if pm["client_nct"] != pm["server_nct"] and min(n_cmp) >= 2:
+                R.count("asym_takeover_conns_2plus_msgs_each_way")
+                R.count("asym_takeover_c%d_s%d" % (pm["client_nct"], pm["server_nct"]))
         if bool(pm) != bool(cfg["pmce"]):
             self.violation("s2c", "sender/pmce-negotiation", None,
                            "extension offered/accepted=%r but 101 response says %r" % (cfg["pmce"], pm))
@@ -1279,7 +1325,7 @@ class CaseRun:
         R = self.R
         cfg = self.cfg
         R.count("fw_" + self.ws.world.fw)
-        cfg_sum = {k: cfg[k] for k in ("pmce", "mask", "utf8", "autofrag", "style", "pings", "hs_seg")}
+        cfg_sum = {k: cfg[k] for k in ("pmce", "pmce_opts", "mask", "utf8", "autofrag", "style", "pings", "hs_seg")}
         for key, what, detail, d, clause in self.viol:
             detail = dict(detail)
             detail.update(cfg=cfg_sum, kind=self.kind, fw=self.ws.world.fw, plan=self.plan_summary(),
@@ -1428,6 +1474,17 @@ def run_shard(params, R):
             run_case({"kind": "pair", "seed": S(), "tier": tier,
                       "force": {"length": L, "api": "msg", "dir": d,
                                 "cfg": {"autofrag": {role: max(1, L + fs_off), ("server" if role == "client" else "client"): 0}}}}, R)
+    # 1b. permessage-deflate takeover matrix: wire {client,server}_no_context_takeover x unilateral overrides x
+    #     window sizes, several messages each way whose bodies repeat earlier bodies (back-references)
+    combos = [(cn, sn, cl, sl) for cn in (0, 1) for sn in (0, 1) for cl in (0, 1) for sl in (0, 1)]
+    for rep_i in range(6 if tier == "thorough" else (1 if params.get("mini") else 2)):
+        for ci, (cn, sn, cl, sl) in enumerate(combos):
+            if (ci + rep_i) % parts != part:
+                continue
+            po = {"c_nct": bool(cn), "s_nct": bool(sn), "c_local": bool(cl), "s_local": bool(sl),
+                  "c_wb": rng.choice([0, 0, 9, 12, 15]), "s_wb": rng.choice([0, 0, 9, 11, 15])}
+            run_case({"kind": "pair", "seed": S(), "tier": tier, "balanced": True, "echo": True,
+                      "n_msgs": rng.choice([6, 10, 16]), "force": {"cfg": {"pmce": "mix", "pmce_opts": po}}}, R)
     phase = {"grid": round(time.time() - t0, 1)}
     thorough = tier == "thorough"
     mini = bool(params.get("mini"))
